@@ -78,6 +78,25 @@ fn custom_msgtype_deserialization() {
 }
 
 #[test]
+fn custom_msgtype_with_relation_roundtrip() {
+    let json = r#"{"msgtype":"my_custom_msgtype","body":"my custom message","custom_field":"baba","m.mentions":{"room":true},"m.relates_to":{"m.in_reply_to":{"event_id":"$event:example.org"}}}"#;
+
+    let content: RoomMessageEventContent = serde_json::from_str(json).unwrap();
+    assert_matches!(&content.relates_to, Some(Relation::Reply { .. }));
+    assert_eq!(content.msgtype.data(), Cow::Owned(json_object! { "custom_field": "baba" }));
+
+    // The fields that are not part of the message type are only serialized once.
+    let serialized = serde_json::to_string(&content).unwrap();
+    assert_eq!(serialized.matches("m.relates_to").count(), 1);
+    assert_eq!(serialized.matches("m.mentions").count(), 1);
+    assert_eq!(
+        serde_json::from_str::<JsonValue>(&serialized).unwrap(),
+        serde_json::from_str::<JsonValue>(json).unwrap()
+    );
+    serde_json::from_str::<RoomMessageEventContent>(&serialized).unwrap();
+}
+
+#[test]
 fn text_msgtype_formatted_body_serialization() {
     let message_event_content =
         RoomMessageEventContent::text_html("Hello, World!", "Hello, <em>World</em>!");
